@@ -139,6 +139,7 @@ func TestSim(t *testing.T) {
 			os.Exit(4)
 		}
 		plan = rf.Plan
+		plan.Unseal()
 		prof = Profiles[rf.Profile]
 		*fSeed, *fProfile, *fVariant = rf.Seed, rf.Profile, rf.Variant
 		tape = &Tape{rng: NewRng(rf.Seed).Derive("tape")}
@@ -157,6 +158,7 @@ func TestSim(t *testing.T) {
 		plan = g.Plan
 	}
 	if *fGenOnly {
+		plan.Seal()
 		writeJSON(*fDump, &ReplayFile{Seed: *fSeed, Profile: *fProfile, Variant: *fVariant, Plan: plan})
 		os.Exit(0)
 	}
@@ -206,6 +208,7 @@ func TestSim(t *testing.T) {
 	synctest.Test(t, func(t *testing.T) {
 		res := simulate(plan, prof, tape, &progress, *fSeed, *fProfile, *fVariant)
 		if *fDump != "" {
+			plan.Seal()
 			writeJSON(*fDump, &ReplayFile{Seed: *fSeed, Profile: *fProfile, Variant: *fVariant, Plan: plan, Tape: tape.Rec, UseTape: true})
 		}
 		mark("check")
